@@ -27,6 +27,10 @@ def judge(ctx, name, recs, t0, own=None):
         ctx.report({"clause": "construct", "class": {"pre": r["init"]["kind"], "nfiles": len(r["init"]["files"])}, "symptom": {"why": r["construct_error"].split(":")[0]}},
                    {"kind": "host", "init": r["init"], "error": r["construct_error"]})
     recs = [r for r in recs if not r.get("construct_error")]
+    saves = sum(1 for r in recs for e in r["events"] if e["cmd"]["sw"] != "list")
+    opens = sum(1 for r in recs for e in r["events"] for hk in e["hooks"] if hk["ev"] == "Open")
+    if saves > 20 and opens == 0:
+        raise tlc.MachineryError("%s: no VirtualFile Open event in %d save steps: the sniff / wrote clauses are vacuous (hooks removed or COCOASM_VERIF not honoured)" % (name, saves))
     verd, st = tlc.bulk("Tr_Host", recs, nproc=6, min_chunk=30, heap="6g", timeout=3000)
     own = own or OWN[ctx.prop]
     nv = nsteps = 0
